@@ -104,6 +104,8 @@ def case_reduction(prog, cname, path):
     before = S.snapshot(tree)
     node = S.resolve(tree.root, path)
     rt = node.ancestor(Routine)
+    if rt is None or node.ancestor(Assignment) is None:
+        return None
     names0 = set(rt.symbol_table.symbols_dict)
     stmt_parent, stmt_pos = node.ancestor(Assignment).parent, node.ancestor(Assignment).position
     code0 = stmt_parent.children[stmt_pos].debug_string()
